@@ -41,8 +41,8 @@ def gen_history(rng, tier, profile=None):
     w_step = rng.choice([0, 1, 2, 4])
     if profile.get("long_lived"):
         # few orders with long lifetimes, many clock steps (lifetimes that cross the 100-step storage chunks)
-        n_ops = rng.randint(120, 320)
-        w_submit, w_cancel, w_step = 2, 0.3, 10
+        n_ops = rng.randint(120, 330)
+        w_submit, w_cancel, w_step = rng.choice([2, 4]), 0.3, 10
     w_toggle = {"continuous": 0, "batch": 0.6, "mixed": 0.8}[mode]
     w_x = {"continuous": 0.3, "batch": 0.5, "mixed": 0.5}[mode]
     big_vol = rng.random() < 0.15
